@@ -875,7 +875,7 @@ func isDo(c gen.ClauseV) bool {
 
 type Options struct {
 	MaxFacts int
-	MaxSteps int64 // 0 = unlimited
+	MaxSteps int64 // 0 = 20 million
 }
 
 type Result struct {
@@ -891,6 +891,10 @@ type Result struct {
 func Eval(p Program, o Options) (*Result, error) {
 	if o.MaxFacts == 0 {
 		o.MaxFacts = 3000
+	}
+	if o.MaxSteps == 0 {
+		// a generous default: a minimisation step may delete the join condition that kept the search small
+		o.MaxSteps = 20_000_000
 	}
 	stepBudget = o.MaxSteps
 	defer func() { stepBudget = 0 }()
